@@ -83,6 +83,12 @@ PAIRS = (
     ("JC69", "HKY85", "mprobs"),
     ("K80", "TN93", "mprobs"),
     ("K80", "GTR", "mprobs"),
+    # user-defined nested models: one parameter for all transversions (it covers the
+    # reference cell of every named richer model) / for all transitions (control)
+    ("TVbeta", "GTR", "matrix"),
+    ("TVbeta", "GN", "matrix"),
+    ("TSalpha", "GTR", "matrix"),
+    ("TSalpha", "GN", "matrix"),
 )
 
 
@@ -159,6 +165,15 @@ _SM = {}
 def sm_of(name):
     from cogent3 import get_model
 
+    if name in ("TVbeta", "TSalpha") and name not in _SM:
+        from cogent3.evolve.predicate import MotifChange
+        from cogent3.evolve.substitution_model import TimeReversibleNucleotide
+
+        pairs = ("AC", "AT", "CG", "GT") if name == "TVbeta" else ("AG", "CT")
+        pred = MotifChange(*pairs[0])
+        for a, b in pairs[1:]:
+            pred = pred | MotifChange(a, b)
+        _SM[name] = TimeReversibleNucleotide(predicates={name[2:]: pred}, name=name)
     if name not in _SM:
         kw = {}
         _SM[name] = get_model(name, **kw)
@@ -457,6 +472,11 @@ def run(plan, tier="quick") -> RunResult:
                         if r["par_name"] not in ("length", "mprobs") and not r.get("is_constant")
                         and isinstance(r.get("init"), (int, float, numpy.floating)) and r.get("upper")
                         and r["init"] > r["upper"] / 100]
+                ref = alt.model.get_param_matrix_coords(include_ref_cell=True)["ref_cell"]
+                if any(ref <= cells for cells in null.model.get_param_matrix_coords().values()):
+                    # a nested parameter covers the richer model's reference cell: every
+                    # projected value would have to be rescaled by it (known finding C16-K2)
+                    cls = "C16.nested-init/null-parameter-covers-reference-cell"
                 if clipped and near:
                     # the fitted null sits within a factor 100 of a declared bound and the
                     # projected values were clipped onto the richer model's bounds: the
@@ -536,7 +556,8 @@ def run(plan, tier="quick") -> RunResult:
                 split = {"split_codons": True} if plan.get("split_codons") and plan["kind"] == "matrix" else {}
                 if split:
                     res.probe("hypothesis-app-split-codons")
-                m0 = get_app("model", plan["null"], tree=tree, opt_args=ob, show_progress=False, **split)
+                m0 = get_app("model", sm_of(plan["null"]) if plan["null"] in ("TVbeta", "TSalpha") else plan["null"],
+                             tree=tree, opt_args=ob, show_progress=False, **split)
                 m1kw = {"time_het": "max"} if plan["kind"] in ("matrix+scope", "scope-indep") else {}
                 m1kw.update(split)
                 if plan["kind"] == "scope-edges":
@@ -705,7 +726,7 @@ CROSS_HASHSEED = 64
 
 EVIDENCE = {
     "rule": (
-        "scenario = nested pair (31 nucleotide pairs: by rate matrix F81/HKY85/TN93/GTR/GN, JC69/K80; by motif-probability "
+        "scenario = nested pair (35 nucleotide pairs incl. two user-defined nulls: by rate matrix F81/HKY85/TN93/GTR/GN, JC69/K80; by motif-probability "
         "freedom K80->HKY85, JC69->F81; by scope: global vs per-edge / edge-set parameter, a null that already has a two-scope parameter refined further, and pairs nested by matrix and scope at once; in 40% of matrix/mprobs pairs the null holds one rate parameter constant, everywhere or on an edge set; in 25% the richer function is not at its default values when initialised; in 30% it is built on another description of the same topology (child order, node names, root position: must be refused or exact); 30% of app scenarios use split_codons; 4% (quick) / 6% (thorough) of scenarios use one of 11 codon pairs: MG94HKY->MG94GTR, CNFHKY->CNFGTR, Y98->H04G/H04GK/H04GGK, H04G/H04GK->H04GGK, scope pairs on MG94HKY, Y98, H04GK, CNFGTR) "
         "x tree (3-5 taxa) x simulated alignment (length, divergence, base composition) x start values x optimiser "
         "settings (local / global / both, tolerance, max_restarts, seed, bounds) x cut-offs n1, n2 from 1..400 x "
